@@ -1034,10 +1034,95 @@ func runC09Config(c *Ctx, named *types.Named) {
 			}
 		}
 		rep := lruRepOf(p, tn)
+		viaCallers := 0
 		if nCmp == 0 && rep.entry == nil {
-			bad = append(bad, "no search for the removed element's key found")
+			// the removing function may RECEIVE the key: then each of its callers inside the type must have
+			// found it by element identity for the very element it hands over
+			keyParam, nodeParam := -1, -1
+			for _, b := range del.Blocks {
+				for _, ins := range b.Instrs {
+					call, ok := ins.(*ssa.Call)
+					if !ok {
+						continue
+					}
+					switch calleeName(&call.Call) {
+					case "builtin.delete":
+						if len(call.Call.Args) == 2 {
+							kv := call.Call.Args[1]
+							if mi, ok := kv.(*ssa.MakeInterface); ok {
+								kv = mi.X
+							}
+							for i, prm := range del.Params {
+								if kv == ssa.Value(prm) {
+									keyParam = i
+								}
+							}
+						}
+					case "(*container/list.List).Remove":
+						if len(call.Call.Args) == 2 {
+							for i, prm := range del.Params {
+								if call.Call.Args[1] == ssa.Value(prm) {
+									nodeParam = i
+								}
+							}
+						}
+					}
+				}
+			}
+			if keyParam >= 0 && nodeParam >= 0 {
+				for _, fn := range p.Funcs {
+					if recvNamed(fn) != named || fn == del {
+						continue
+					}
+					for _, b := range fn.Blocks {
+						for _, ins := range b.Instrs {
+							call, ok := ins.(*ssa.Call)
+							if !ok || staticCallee(&call.Call) != del || len(call.Call.Args) <= keyParam || len(call.Call.Args) <= nodeParam {
+								continue
+							}
+							viaCallers++
+							nodeArg := call.Call.Args[nodeParam]
+							found := 0
+							for _, lb := range fn.Blocks {
+								for _, li := range lb.Instrs {
+									bo, ok := li.(*ssa.BinOp)
+									if !ok || (bo.Op != token.EQL && bo.Op != token.NEQ) {
+										continue
+									}
+									inLoop := false
+									for _, l := range naturalLoops(fn) {
+										if l.Body[lb] {
+											inLoop = true
+										}
+									}
+									isElem := func(v ssa.Value) bool {
+										pt, ok := v.Type().(*types.Pointer)
+										return ok && isNamed(pt.Elem(), "container/list", "Element")
+									}
+									if !inLoop || !(isElem(bo.X) || isElem(bo.Y)) {
+										continue
+									}
+									if isElem(bo.X) && isElem(bo.Y) && (bo.X == nodeArg || bo.Y == nodeArg) {
+										found++
+									}
+								}
+							}
+							if found == 0 {
+								bad = append(bad, fnName(fn)+" hands "+del.Name()+" a key that was not found by element identity for the element it removes (no `element == node` search for that element in the caller)")
+							}
+							c.Funcs[fnName(fn)] = true
+						}
+					}
+				}
+			}
+			if viaCallers == 0 {
+				bad = append(bad, "no search for the removed element's key found")
+			}
 		}
 		good := "key found by element identity"
+		if viaCallers > 0 {
+			good = fmt.Sprintf("key handed in by %d caller(s), each found it by element identity for the element removed", viaCallers)
+		}
 		if nCmp == 0 && rep.entry != nil {
 			good = "key read from the removed element's own entry (checked by C09-PAIR remove)"
 		}
